@@ -55,6 +55,20 @@ Checks that were strengthened because a seeded change (or the triage of one) sho
 * **C18** — no corpus input made a list, table or builder grow, so the failure of the growing `realloc` was never among the
   enumerated faults and C18-3 (capacity doubled before the failed reallocation) was missed; eight container-growth inputs were
   added (70 headers, 40 trailers, 40 pipelined transactions with log messages, 80 parameters/cookies, 40 multipart parts, ...).
+* **Round 4** (19 more changes, 7 missed at first): **C02-4** (query string decoded before it is split) — parameter names and
+  values now contain the characters that are syntax when raw (`& = + % # ?`), which travel percent-encoded; **C06-4**
+  (decompressor callbacks drop the end-of-body marker) — C06 got a slice of complete content-coded bodies in which the marker is
+  required (the online monitor has to exempt coded bodies because a truncated stream's last flush replaces the marker);
+  **C08-4** (quadratic NUL-skipping search behind the response `Transfer-Encoding`) — 960 generated families: every interpreted
+  header x value tokens, URI positions x URI tokens, Content-Disposition and Authorization forms; **C11-4** (`chunked` followed
+  by blank and more text accepted) — more unsupported Transfer-Encoding spellings; **C14-4** (content type only parsed for file
+  parts) — text parts carry a Content-Type too, part headers in either order, and the type is compared for every part;
+  **C16-4** (101 answer to a CONNECT no longer tunnels) — the CONNECT x 101 cell of the quantifier was not generated;
+  **C18-4** (lost pointer when growing a repeated multipart part header fails) — `tools/allocgaps.py` (gcov over the fault-free
+  corpus) listed 51 allocation-calling lines no corpus input executed; inputs were added for every one reachable through the
+  stream API (repeated part headers, file extraction, userinfo/IPv6 targets, empty parameter names, first-line folding,
+  decompressor restarts, wrapped list growth, LZMA dictionary growth). C01-4 (one byte past a heap block handed to body
+  callbacks) was caught only by the valgrind memcheck stage, not by ASan, at the quick tier.
 * **C08-1/2, C19-1/2** were the acceptance tests of the two checks built last; C19-1 (a process-wide decompression buffer) is
   invisible to ThreadSanitizer because zlib does the writes, and is caught by the solo-vs-shared dump comparison under baton
   interleavings; C19-2 (self-organising best-fit map) is caught by the deep configuration hash and by TSan.
